@@ -9,6 +9,7 @@ CONSTANTS
   MaxMut = 3
   MaxConds = 2
   UseOpts = TRUE
+  UseBlocks = TRUE
   MaxObs = 2
   MaxRagged = 0
   MaxRaggedInt = 0
